@@ -1,5 +1,5 @@
 # replay of a bounded stand-in violation (C08): re-run native/c08_history.py
 import sys
-print("gaussian [['N1'], ['D0']]: building segment 1 changed the register of an earlier program from [0, 1] to [1]")
+print("bosonic [['N2']]: running segment 0 of a valid history raised ValueError: matmul: Input operand 1 has a mismatch in its core dimension 0, with gufunc signature (n?,k),(k,m?)->(n?,m?) (size 6 is different from 10)")
 print('REPLAY-VIOLATION')
 sys.exit(1)
